@@ -180,13 +180,20 @@ func posStream(args []string) int {
 			if len(legal) < 12 {
 				d = 3
 			}
-			for _, od := range []bool{false, true} {
-				pf := movegen.NewPerft()
+			// one long-lived Perft object, as the UCI perft command uses it: the same position at the same
+			// depth twice, a shallower run in between, both generation modes
+			if sharedPerft == nil {
+				sharedPerft = movegen.NewPerft()
+			}
+			for _, run := range []struct {
+				d  int
+				od bool
+			}{{d, false}, {d, true}, {d, true}, {d - 1, true}, {d, true}, {d, false}} {
 				saved := os.Stdout
 				os.Stdout = devnull
-				pf.StartPerft(fen, d, od)
+				sharedPerft.StartPerft(fen, run.d, run.od)
 				os.Stdout = saved
-				fmt.Fprintf(out, "PERFT|%s|%d|%d\n", fen, d, pf.Nodes)
+				fmt.Fprintf(out, "PERFT|%s|%d|%d\n", fen, run.d, sharedPerft.Nodes)
 				rep.Stats["perft_runs"]++
 			}
 		}
@@ -194,6 +201,8 @@ func posStream(args []string) int {
 	_ = position.StartFen
 	return rep.Emit()
 }
+
+var sharedPerft *movegen.Perft
 
 func b01(b bool) string {
 	if b {
